@@ -137,7 +137,7 @@ func (sc *scenario) with(r request) *scenario {
 }
 
 func (g *gen) emitStep(stream string, sc *scenario, be *config.Backend, o outcome, note string) {
-	term := emit.App("CStack", sc.term(be), o.term())
+	term := caseTerm(sc, be, o)
 	js := sc.js()
 	js["stream"] = stream
 	js["reuse"] = note
